@@ -1,4 +1,4 @@
-HOOK_COMMITS = ['81c746f', 'eeb4891', '0c7b54f', '27186c1', 'cf21213']
+HOOK_COMMITS = ['81c746f', 'eeb4891', '0c7b54f', '27186c1', 'cf21213', '5ec0756', 'b0c5ae0', 'f86ee60', 'c66048e', '715d408', '40d5ed3', '4419488']
 
 META = {
     'C06': {
@@ -59,13 +59,15 @@ META['C01'] = {
              "import_roots_valid — for every post-order cell array and any weights the model of reorderCells/revisit "
              "terminates within its fuel, emits each imported cell exactly once, remaps every reference exactly once to a "
              "strictly smaller new index (references strictly forward in the emitted order, the premise of parse_layout) "
-             "and returns the roots' new indices. Only the byte emission of serializeBoc (bytes = layout of the reordered "
-             "cells) remains validated per output by the certificate."),
+             "and returns the roots' new indices; (iv) theorem serialize_is_layout — for all 8 option combinations the "
+             "serialiser model's bytes are exactly the layout of the reordered cells under the variant the options determine, "
+             "hence boc_roundtrip (parse(serialize) unfolds to the same tree under collision-freeness), stored_once, and an "
+             "exact characterisation of when the serialiser fails (depth, capacity, hasher error)."),
     'design_ref': 'DESIGN.md §6 C01',
     'note': ("Trusted: Coq kernel, extraction, drivers, Go harness, the layout spec. 'Stored once' is up to SHA-256 "
-             "collisions. < 2^24 cells. The byte-emission step of the serialiser is translation-validation strength "
-             "(certificate per output); ordering, de-duplication and reference remapping are proved."),
-    'technique': 'Coq proofs (parser inverts layout; reorder/import validity for all DAGs) + byte-exact extracted serialiser model with per-output certificate',
+             "collisions (explicit hypotheses of the theorems). < 2^24 cells, < 256 roots. The per-output certificate is now "
+             "redundant (kept as a cross-check); the serialiser model is tied to Cell.ToBocCustom byte for byte by the run."),
+    'technique': 'Coq proofs (parser inverts layout; import/reorder validity; serialiser bytes = layout; round trip) + byte-exact extracted serialiser model',
 }
 
 META['C18'] = {
